@@ -30,8 +30,9 @@ Record iso := mkIso {
   i_body : body }.
 
 Definition labels (i : iso) : dict := combine (map fst unit_params) (i_units i).
-Definition mat_val (i : iso) : pyval :=
-  match i_mprops i with [] => VStr (i_mat i) | p => VDict (dict_update [("name", VStr (i_mat i))] p) end.
+Definition mat_val' (n : string) (mp : dict) : pyval :=
+  match mp with [] => VStr n | _ => VDict (dict_update [("name", VStr n)] mp) end.
+Definition mat_val (i : iso) : pyval := mat_val' (i_mat i) (i_mprops i).
 Definition class_attrs (b : body) : list string :=
   match b with BBase => [] | BPoint _ _ _ _ _ => point_attrs | BModel _ _ => model_attrs end.
 Definition class_reserved (b : body) : list string :=
